@@ -46,7 +46,7 @@ m = {
            "baseline_off_cmd": ENV + "cd /repo && go test -vet=off -count=1 ./...",
            "source_commits": [], "add_only": True},
  "engines": [{"name": "sipsp-sa", "path": "/verif/sa", "serves_properties": sorted(claimed.keys()),
-              "kind_free_text": "repository-specific static analyser (Go, x/tools v0.29.0): type-checked AST rules, go/ssa dataflow, guard dominance, constant tables; loads /repo's working tree on every run"}],
+              "kind_free_text": "repository-specific static analyser (Go, x/tools v0.29.0): type-checked AST rules, go/ssa dataflow, guard dominance, constant tables; loads /repo's working tree on every run; calls to functions that the pinned tree does not have are first inlined back into their callers (vendored x/tools refactoring inliner, source to source, scratch copy under the temp directory removed on exit)"}],
  "checks": checks,
  "not_applicable": [{"property_id": i, "reason": na_reasons.get(i, NA_DEFAULT)} for i in ids if i not in claimed],
  "notes": "All claims are level 'other': structural necessary conditions decided from source; see DESIGN.md for what each check does not decide. quick = default build config; thorough = the same rules also under -tags nodebug and under GOARCH=386 (32-bit int for the type checker), plus a self-audit of the checker (catalogued mutants and independently seeded changes must be reported, behaviour-preserving rewrites must stay silent; on scratch copies outside /repo and /verif, removed at once).",
